@@ -223,6 +223,15 @@ func RunRange(cfg *Config, fn RunFn, from, to, maxShrink int, wall time.Duration
 			res.Note[k] += v
 		}
 		res.SimSeconds += o.SimTime.Seconds()
+		if dd := cfg.Str("dump", ""); dd != "" {
+			sb, _ := json.MarshalIndent(o.Scenario, "", " ")
+			os.MkdirAll(dd, 0o755)
+			os.WriteFile(filepath.Join(dd, fmt.Sprintf("%d.txt", i)), []byte(o.Sig+"\n"+o.Detail+"\n"+string(sb)+"\n"+strings.Join(o.Trace, "\n")+"\n"+fmt.Sprint(t.Decisions())), 0o644)
+		}
+		if nd := cfg.Int("digest", 0); nd > 0 && i-from < nd {
+			sb, _ := json.Marshal(o.Scenario)
+			res.Digests[fmt.Sprint(i)] = Hash(o.Sig, o.Detail, string(sb), strings.Join(o.Trace, "\n"), fmt.Sprint(t.Decisions()))
+		}
 		if len(res.Samples) < 3 && !o.Trivial && o.Scenario != nil {
 			res.Samples = append(res.Samples, o.Scenario)
 		}
